@@ -335,6 +335,48 @@ pub fn run(ctx: &Ctx) {
             xs.push(s.as_bytes().to_vec());
         }
     }
+    // labels that software decodes: an encoding prefix (punycode, service underscore, wildcard)
+    // followed by a run of one character of every length, or by every short string over
+    // digits / letters / hyphen; as question name, owner name and PTR target
+    {
+        let mut labels: Vec<Vec<u8>> = Vec::new();
+        for prefix in ["xn--", "XN--", "xn--a-", "_", "*"] {
+            for ch in [b'9', b'z', b'a', b'0', b'-', b'A'] {
+                for k in 1..=(63 - prefix.len()) {
+                    let mut l = prefix.as_bytes().to_vec();
+                    l.extend(std::iter::repeat(ch).take(k));
+                    labels.push(l);
+                }
+            }
+            let mut b3 = Vec::new();
+            crate::engine::for_each_string_upto(b"az09-", 4, &mut b3, &mut |x| {
+                let mut l = prefix.as_bytes().to_vec();
+                l.extend_from_slice(x);
+                labels.push(l);
+            });
+        }
+        let n_labels = labels.len() as u64;
+        let lchunks: Vec<&[Vec<u8>]> = labels.chunks(32).collect();
+        par_shards(ctx, &lchunks, |ls, t: &mut Tally| {
+            for l in ls.iter() {
+                let name = RefName(vec![crate::refmodel::B(l.clone()), crate::refmodel::B(b"local".to_vec())]);
+                let mut p = RefPacket { id: 0x1212, flags: F_QR | F_AA, ..Default::default() };
+                p.questions.push(RefQ { name: name.clone(), qtype: 12, qclass: 1, unicast: false });
+                p.answers.push(RefRR { name: name.clone(), class: 1, cache_flush: false, ttl: 9, rdata: typed(12, vec![crate::refmodel::schema::Val::Name(name.clone())]) });
+                let m = p.encode(0);
+                t.evals += 1;
+                let (f, acc) = check_bytes(&m);
+                if acc {
+                    t.nontrivial += 1;
+                }
+                t.outcome(if !acc { "rejected" } else if f.is_empty() { "inspected" } else { "panicked" });
+                if !f.is_empty() {
+                    ctx.violations(f);
+                }
+            }
+        });
+        ctx.space("decodable labels: the prefixes xn-- / XN-- / xn--a- / _ / * followed by a run of 9, z, a, 0, - or A of every length up to the 63-byte limit, and by every string of length <= 4 over {a, z, 0, 9, -}; as question name, owner name and PTR target", n_labels, "complete");
+    }
     let total = std::sync::atomic::AtomicU64::new(0);
     let chunks: Vec<&[Vec<u8>]> = xs.chunks(8).collect();
     par_shards(ctx, &chunks, |xs, t: &mut Tally| {
